@@ -1,6 +1,7 @@
 package props
 
 import (
+	"math"
 	"context"
 	"fmt"
 
@@ -18,6 +19,8 @@ func c14Grammar(maxW int) *enum.Grammar {
 	vals := []enum.Prod{
 		leaf("nil", model.Nil), leaf("false", model.Bool(false)), leaf("true", model.Bool(true)),
 		leaf("0", model.Int(0)), leaf("1", model.Int(1)),
+		// neighbours above 2^53 (not distinguishable as float64) and at the end of the int64 range
+		leaf("2^53", model.Int(9007199254740992)), leaf("2^53+1", model.Int(9007199254740993)), leaf("max", model.Int(math.MaxInt64)), leaf("max-1", model.Int(math.MaxInt64-1)),
 		leaf(`""`, model.Str("")), leaf(`"a"`, model.Str("a")), leaf(":a", model.Kw("a")), leaf("'a", sym("a")),
 		leaf("()", model.List()), leaf("[]", model.Vec()), leaf("{}", model.MapOf()), leaf("#{}", model.SetOf()),
 	}
@@ -129,7 +132,7 @@ func init() {
 		}
 		pairs := &vf.Family{
 			Name:   "ordered-pairs",
-			Bounds: "all ordered pairs (a, b) over all data values of weight <=3 (quick) / <=4 (thorough): 13 atoms/empty collections (nil false true 0 1 \"\" \"a\" :a 'a () [] {} #{}), lists/vectors of 1-2, maps of 1-2 entries and sets of 1-2 members over keys {\"a\" :a :b}; b also built along a second construction path (assoc/conj in reverse order, vec of list)",
+			Bounds: "all ordered pairs (a, b) over all data values of weight <=3 (quick) / <=4 (thorough): 17 atoms/empty collections (nil false true 0 1 2^53 2^53+1 maxint maxint-1 \"\" \"a\" :a 'a () [] {} #{}), lists/vectors of 1-2, maps of 1-2 entries and sets of 1-2 members over keys {\"a\" :a :b}; b also built along a second construction path (assoc/conj in reverse order, vec of list)",
 			Setup:  func(t string) { tier = t; env = lx.NewCoreEnv() },
 			N:      func(t string) int64 { tier = t; n := int64(len(valuesOf())); return n * n },
 			Describe: func(i int64) string {
